@@ -1712,10 +1712,13 @@ impl MutableRepo {
         match heads {
             [] => {}
             [head]
-                if head
-                    .parent_ids()
-                    .iter()
-                    .all(|parent_id| current_heads.contains(parent_id)) =>
+                // The root commit has no parents to replace, so it can't be added
+                // incrementally.
+                if !head.parent_ids().is_empty()
+                    && head
+                        .parent_ids()
+                        .iter()
+                        .all(|parent_id| current_heads.contains(parent_id)) =>
             {
                 self.index
                     .add_commit(head)
